@@ -232,3 +232,86 @@ Fixpoint hrun_from (st : wl * wls) (h : list hev) : wl * wls :=
   | [] => st
   | e :: h' => hrun_from (fst (hstep st e)) h'
   end.
+
+(* ---------- observed traces and the ghost folds of C17 / C04 ---------- *)
+(* What an observer at the API sees of one event: the event, the wanted set W just before it
+   (W = CIDs of the live queries = `wl_cids`), and the wantlist generated by it (full flag, entries). *)
+Record titem := MkTi { ti_ev : hev; ti_w : list cid; ti_out : option (bool * list gen_entry) }.
+
+Fixpoint htrace (st : wl * wls) (h : list hev) : list titem :=
+  match h with
+  | [] => []
+  | e :: h' => MkTi e (wl_cids (fst st)) (snd (hstep st e)) :: htrace (fst (hstep st e)) h'
+  end.
+
+Definition cset_add (c : cid) (l : list cid) : list cid := if cid_mem c l then l else c :: l.
+Definition cset_inter (l w : list cid) : list cid := filter (fun c => cid_mem c w) l.
+Definition wants (es : list gen_entry) : list cid := map snd (filter is_want es).
+Definition want_haves (es : list gen_entry) : list cid :=
+  map snd (filter (fun e => match fst e with KWantHave => true | _ => false end) es).
+
+(* C17: the last presence answer of the peer about c, forgotten whenever a WANT_HAVE for c is emitted
+   (that is when c enters, or is still unanswered in, the peer's request map) *)
+Definition la_step (la : list (cid * bool)) (t : titem) : list (cid * bool) :=
+  match ti_ev t, ti_out t with
+  | HHave c, _ => al_set cid_eqb c true la
+  | HDontHave c, _ => al_set cid_eqb c false la
+  | _, Some (_, es) => fold_left (fun l c => al_remove cid_eqb c l) (want_haves es) la
+  | _, None => la
+  end.
+Definition last_answer (tr : list titem) : list (cid * bool) := fold_left la_step tr [].
+
+(* C04.  `refined = false` gives the four folds exactly as the property is written:
+     view      : a full wantlist replaces; a cancel removes; a want adds; a block from the peer removes
+                 (accepted or not);
+     told      : W at the last generated wantlist; an answer about c is solicited iff c is in `told`;
+     dont_have : a solicited DONT_HAVE adds; a solicited HAVE, an accepted block, leaving `told` remove;
+     delivered : a block from the peer adds; a want entry for c sent removes.
+   `refined = true` differs in one point: when c is inserted again after the peer's accepted block
+   answered the want it had been told about (fold `got`), c leaves `told` — the peer has forgotten the
+   served want and has not been asked again yet, so a presence about c that arrives before the next
+   generated wantlist is NOT solicited.  This is what the repaired code does (`wanted_again` removes the
+   GotBlock entry, and_modify then ignores presences about c). *)
+Record ghost := MkGhost {
+  g_view : list cid; g_told : list cid; g_dont_have : list cid; g_delivered : list cid; g_got : list cid
+}.
+
+Definition ghost0 : ghost := MkGhost [] [] [] [] [].
+
+Definition view_apply (v : list cid) (e : gen_entry) : list cid :=
+  match fst e with KCancel => cid_remove (snd e) v | _ => cset_add (snd e) v end.
+
+Definition gstep (refined : bool) (g : ghost) (t : titem) : ghost :=
+  let W := ti_w t in
+  match ti_ev t with
+  | HInsert c =>
+      if refined && negb (cid_mem c W) && cid_mem c (g_got g)
+      then MkGhost (g_view g) (cid_remove c (g_told g)) (g_dont_have g) (g_delivered g) (cid_remove c (g_got g))
+      else g
+  | HRemove _ => g
+  | HHave c =>
+      if cid_mem c (g_told g)
+      then MkGhost (g_view g) (g_told g) (cid_remove c (g_dont_have g)) (g_delivered g) (cid_remove c (g_got g))
+      else g
+  | HDontHave c =>
+      if cid_mem c (g_told g)
+      then MkGhost (g_view g) (g_told g) (cset_add c (g_dont_have g)) (g_delivered g) (cid_remove c (g_got g))
+      else g
+  | HBlock c =>
+      let accepted := cid_mem c W in
+      MkGhost (cid_remove c (g_view g)) (g_told g)
+              (if accepted then cid_remove c (g_dont_have g) else g_dont_have g)
+              (cset_add c (g_delivered g))
+              (if accepted && cid_mem c (g_told g) then cset_add c (g_got g) else g_got g)
+  | HGenUpdate | HGenFull =>
+      match ti_out t with
+      | Some (full, es) =>
+          MkGhost (if full then wants es else fold_left view_apply es (g_view g))
+                  W (cset_inter (g_dont_have g) W)
+                  (filter (fun c => negb (cid_mem c (wants es))) (g_delivered g))
+                  (cset_inter (g_got g) W)
+      | None => g
+      end
+  end.
+
+Definition ghost_of (refined : bool) (tr : list titem) : ghost := fold_left (gstep refined) tr ghost0.
